@@ -1,5 +1,6 @@
 import CV.Proofs.QuantModels
 import CV.Proofs.CatModels
+import CV.Proofs.CatFast
 /-!
 # Link to component `cat`: the eager `…_fast` constructor yields a `ValidCdf`
 
@@ -56,5 +57,277 @@ theorem cdfList_valid (ok : FastOk B P n) (hf : free = 2 ^ P - n) (tb : TBF1Fast
     refine ⟨by rw [extList_length]; omega, ?_, ?_, extList_pairwise ok hf tb.mono⟩
     · rw [extList_getD (by omega), cumF_zero ok tb.zero]
     · rw [extList_length, Nat.add_sub_cancel, extList_getD (Nat.le_refl _), cumF_last]
+
+/-! ### the glue constructors that share `fast_quantized_cdf` -/
+
+/-- the items `fast_quantized_cdf` yields: one left cumulative per weight -/
+def innerList (P n free : Nat) (h : Nat → Nat) : List Nat := (List.range' 0 n).map (cumF P n free h)
+
+theorem fastEntries_inner (ok : FastOk B P n) (hf : free = 2 ^ P - n) :
+    fastEntries B free h n 0 = .ok (innerList P n free h) := fastEntries_eq ok hf n 0 (by omega)
+
+theorem extList_dropLast : (extList P n free h).dropLast = innerList P n free h := by
+  unfold extList innerList; rw [List.dropLast_concat]
+
+theorem innerList_length : (innerList P n free h).length = n := by simp [innerList]
+
+theorem extList_valid (ok : FastOk B P n) (hf : free = 2 ^ P - n) (tb : TBF1Fast h n) :
+    Cat.ValidExt P (extList P n free h) := by
+  have := (cdfList_valid (h := h) ok hf tb).2
+  rw [unwrap_cdfList] at this; exact this
+
+/-- **`NonContiguousCategoricalDecoderModel::from_symbols_and_floating_point_probabilities_fast`**:
+    with as many symbols as weights the constructor returns the canonical decoder model over the
+    same table as the contiguous model -/
+theorem ncdec_fast {Sym : Type} (ok : FastOk B P n) {syms : List Sym} (hlen : syms.length = n) :
+    ∃ last, Cat.NcDec.fromSymbolsAndCdf B P syms (innerList P n free h) =
+      .ok (some { cdf := Cat.ncCdf B P syms (extList P n free h) last }) := by
+  have hn2 := ok.hn2
+  obtain ⟨last, hl⟩ := Cat.NcDec.fromSymbolsAndCdf_match (B := B) (P := P) (syms := syms)
+    (cdf := innerList P n free h) (by rw [innerList_length]; exact hlen)
+    (by intro hnil; have := innerList_length (P := P) (n := n) (free := free) (h := h)
+        rw [hnil] at this; simp at this; omega)
+  exact ⟨last, by rw [hl]; unfold Cat.ncCdf; rw [extList_dropLast]⟩
+
+/-- **`ContiguousLookupDecoderModel::from_floating_point_probabilities_fast`**: its `resize` loop
+    over the right cumulatives followed by the final `resize(1 << P, len - 1)` is the loop of
+    `to_lookup_decoder_model` (`Cat.Lookup.fromContiguous`) on the same cdf; it never panics and
+    builds a correct lookup table -/
+theorem lookup_fast (ok : FastOk B P n) (hf : free = 2 ^ P - n) (tb : TBF1Fast h n) :
+    ∃ tbl, Cat.Lookup.fromContiguous B P ⟨cdfList B P n free h⟩
+        = .ok { tbl := tbl, cdf := cdfList B P n free h } ∧
+      Cat.LookupOK P (extList P n free h) tbl := by
+  have hv := cdfList_valid (h := h) ok hf tb
+  obtain ⟨tbl, h1, h2⟩ := Cat.Lookup.fromContiguous_ok (m := ⟨cdfList B P n free h⟩) hv ok.hPB
+  rw [unwrap_cdfList] at h2
+  exact ⟨tbl, h1, h2⟩
+
+/-- row `i` of the symbol table shared by all representations -/
+def entryF {Sym : Type} [Inhabited Sym] (P n free : Nat) (h : Nat → Nat) (syms : List Sym) (i : Nat) :
+    Sym × Nat × Nat :=
+  (syms.getD i default, cumF P n free h i, widthF P n free h i)
+
+theorem cdfList_drop {i : Nat} (hi : i ≤ n) :
+    (cdfList B P n free h).drop i
+      = (if i < n then cumF P n free h i else wrappingPow2 B P) :: (cdfList B P n free h).drop (i + 1) := by
+  rw [List.drop_eq_getElem_cons (by rw [cdfList_length]; omega)]
+  congr 1
+  have : (cdfList B P n free h)[i]? = some (if i < n then cumF P n free h i else wrappingPow2 B P) := by
+    by_cases hlt : i < n
+    · rw [if_pos hlt]; exact cdfList_get_lt hlt
+    · have : i = n := by omega
+      subst this; rw [if_neg hlt]; exact cdfList_get_last
+  rw [List.getElem?_eq_getElem (by rw [cdfList_length]; omega)] at this
+  exact Option.some.inj this
+
+theorem syms_drop {Sym : Type} [Inhabited Sym] {syms : List Sym} {i : Nat} (hi : i < syms.length) :
+    syms.drop i = syms.getD i default :: syms.drop (i + 1) := by
+  rw [List.drop_eq_getElem_cons hi]
+  congr 1
+  rw [List.getD_eq_getElem?_getD, List.getElem?_eq_getElem hi]; rfl
+
+theorem specTable_eq_entries {Sym : Type} [Inhabited Sym] (syms : List Sym) :
+    Cat.specTable (fun i => syms.getD i default) (extList P n free h)
+      = (List.range' 0 n).map (entryF P n free h syms) := by
+  unfold Cat.specTable
+  rw [extList_length, Nat.add_sub_cancel, List.range_eq_range']
+  apply List.map_congr_left
+  intro i hi
+  have hi' : i < n := by simpa using (List.mem_range'_1.mp hi).2
+  unfold entryF widthF
+  rw [extList_getD (by omega), extList_getD (by omega)]
+
+/-- the loop of the non-contiguous lookup `…_fast` constructor builds the shared symbol table -/
+theorem nclookup_fastLoop {Sym : Type} [Inhabited Sym] (ok : FastOk B P n) (hf : free = 2 ^ P - n)
+    (hm : Mono h n) {syms : List Sym} (hlen : syms.length = n) :
+    ∀ (k i left : Nat) (acc : List (Sym × Nat × Nat)), i + k = n → (i < n → left = cumF P n free h i) →
+      Cat.NcLookup.fastLoop B left ((cdfList B P n free h).drop (i + 1)) (syms.drop i) acc
+        = .ok (some ([], acc ++ (List.range' i k).map (entryF P n free h syms))) := by
+  intro k
+  induction k with
+  | zero =>
+    intro i left acc hik _
+    have : i = n := by omega
+    subst this
+    have e1 : (cdfList B P i free h).drop (i + 1) = [] :=
+      List.drop_of_length_le (by rw [cdfList_length]; omega)
+    have e2 : syms.drop i = [] := List.drop_of_length_le (by omega)
+    rw [e1, e2]
+    simp [Cat.NcLookup.fastLoop]
+  | succ k ih =>
+    intro i left acc hik hleft
+    have hi : i < n := by omega
+    have hl := hleft hi
+    subst hl
+    have e1 := cdfList_drop (B := B) (P := P) (n := n) (free := free) (h := h) (i := i + 1) (by omega)
+    have e2 := syms_drop (syms := syms) (i := i) (by omega)
+    rw [e1, e2]
+    unfold Cat.NcLookup.fastLoop
+    have hp := width_pos ok hf hm hi
+    have hw : wsub B (if i + 1 < n then cumF P n free h (i + 1) else wrappingPow2 B P)
+        (cumF P n free h i) = widthF P n free h i := by
+      by_cases h1 : i + 1 < n
+      · rw [if_pos h1]; exact wsub_inner ok hf hm h1
+      · rw [if_neg h1]; exact wsub_last ok hf hm (by omega)
+    simp only
+    rw [hw, if_neg (by omega)]
+    have := ih (i + 1) (if i + 1 < n then cumF P n free h (i + 1) else wrappingPow2 B P)
+      (acc ++ [(syms.getD i default, cumF P n free h i, widthF P n free h i)]) (by omega)
+      (by intro h1; rw [if_pos h1])
+    rw [this]
+    simp [List.range'_succ, entryF, List.append_assoc]
+
+theorem innerList_cons (ok : FastOk B P n) :
+    innerList P n free h = cumF P n free h 0 :: (innerList P n free h).tail ∧
+    (innerList P n free h).tail ++ [wrappingPow2 B P] = (cdfList B P n free h).drop 1 := by
+  have hn2 := ok.hn2
+  obtain ⟨m, rfl⟩ : ∃ m, n = m + 1 := ⟨n - 1, by omega⟩
+  unfold innerList cdfList
+  rw [List.range'_succ]
+  simp
+
+/-- **`NonContiguousLookupDecoderModel::from_symbols_and_floating_point_probabilities_fast`**:
+    never panics (`expect("quantization is leaky")` holds), canonical cdf over the shared table,
+    correct lookup table -/
+theorem nclookup_fast {Sym : Type} [Inhabited Sym] (ok : FastOk B P n) (hf : free = 2 ^ P - n)
+    (tb : TBF1Fast h n) {syms : List Sym} (hlen : syms.length = n) :
+    ∃ tbl last, Cat.NcLookup.fromSymbolsAndCdf B P syms (innerList P n free h) =
+      .ok (some { tbl := tbl, cdf := Cat.ncCdf B P syms (extList P n free h) last }) ∧
+      Cat.LookupOK P (extList P n free h) tbl := by
+  subst hlen
+  obtain ⟨hc, ht⟩ := innerList_cons (B := B) (free := free) (h := h) ok
+  have hloop := nclookup_fastLoop ok hf tb.mono rfl syms.length 0 (cumF P syms.length free h 0) []
+    (by omega) (fun _ => rfl)
+  simp only [List.drop_zero, List.nil_append, Nat.zero_add] at hloop
+  rw [← specTable_eq_entries] at hloop
+  have hv := extList_valid (h := h) ok hf tb
+  obtain ⟨tbl, last, hft, hok⟩ :=
+    Cat.NcLookup.fromTable_specTable (B := B) (fun i => syms.getD i default) hv ok.hPB
+  rw [extList_length, Nat.add_sub_cancel, Cat.labelsOf_getD_self] at hft
+  refine ⟨tbl, last, ?_, hok⟩
+  rw [hc]
+  unfold Cat.NcLookup.fromSymbolsAndCdf
+  simp only
+  rw [ht, hloop]
+  simp only [List.isEmpty_nil, Bool.not_true, Bool.false_eq_true, if_false]
+  rw [hft]
+
+theorem innerList_drop {i : Nat} (hi : i < n) :
+    (innerList P n free h).drop i = cumF P n free h i :: (innerList P n free h).drop (i + 1) := by
+  rw [List.drop_eq_getElem_cons (by rw [innerList_length]; exact hi)]
+  congr 1
+  simp [innerList]
+
+theorem not_mem_take_of_nodup {Sym : Type} [Inhabited Sym] {syms : List Sym} (hnd : syms.Nodup)
+    {i : Nat} (hi : i < syms.length) : syms.getD i default ∉ syms.take i := by
+  have e := List.take_append_drop i syms
+  rw [syms_drop hi] at e
+  rw [← e] at hnd
+  intro hmem
+  exact (List.nodup_append.mp hnd).2.2 _ hmem _ (List.mem_cons_self) rfl
+
+theorem take_succ_getD {Sym : Type} [Inhabited Sym] {syms : List Sym} {i : Nat} (hi : i < syms.length) :
+    syms.take (i + 1) = syms.take i ++ [syms.getD i default] := by
+  rw [List.take_add_one, List.getElem?_eq_getElem hi, List.getD_eq_getElem?_getD,
+    List.getElem?_eq_getElem hi]; rfl
+
+/-- the loop of `NonContiguousCategoricalEncoderModel::from_symbols_and_cdf` (pairwise distinct
+    symbols): no `Occupied`, the plain `right - left` does not underflow, no zero probability -/
+theorem ncenc_fromCdfLoop {Sym : Type} [DecidableEq Sym] [Inhabited Sym] (ok : FastOk B P n)
+    (hf : free = 2 ^ P - n) (hm : Mono h n) {syms : List Sym} (hlen : syms.length = n)
+    (hnd : syms.Nodup) :
+    ∀ (k i : Nat) (acc : List (Sym × Nat × Nat)), i + 1 + k = n → acc.map (·.1) = syms.take i →
+      Cat.NcEnc.fromCdfLoop (cumF P n free h i) ((innerList P n free h).drop (i + 1)) (syms.drop i) acc
+        = .ok (some (cumF P n free h (n - 1), syms.drop (n - 1),
+            acc ++ (List.range' i k).map (entryF P n free h syms))) := by
+  intro k
+  induction k with
+  | zero =>
+    intro i acc hik _
+    have : i = n - 1 := by omega
+    subst this
+    have e1 : (innerList P n free h).drop (n - 1 + 1) = [] :=
+      List.drop_of_length_le (by rw [innerList_length]; omega)
+    rw [e1]
+    simp [Cat.NcEnc.fromCdfLoop]
+  | succ k ih =>
+    intro i acc hik hacc
+    have hi1 : i + 1 < n := by omega
+    have e1 := innerList_drop (P := P) (n := n) (free := free) (h := h) (i := i + 1) hi1
+    have e2 := syms_drop (syms := syms) (i := i) (by omega)
+    rw [e1, e2]
+    unfold Cat.NcEnc.fromCdfLoop
+    have hget : Cat.NcEnc.get acc (syms.getD i default) = none := by
+      rw [Cat.NcEnc.get_none_iff, hacc]
+      exact not_mem_take_of_nodup hnd (by omega)
+    have hst := cumF_step ok hf hm (i := i) (by omega)
+    have hp := width_pos ok hf hm (s := i) (by omega)
+    have hsub : csub "ncenc.from_symbols_and_cdf.sub" (cumF P n free h (i + 1)) (cumF P n free h i)
+        = .ok (widthF P n free h i) := by
+      unfold csub widthF; rw [if_pos (by omega)]
+    simp only
+    rw [hget]
+    simp only
+    rw [hsub]
+    simp only
+    rw [if_neg (by omega)]
+    have := ih (i + 1) (acc ++ [(syms.getD i default, (cumF P n free h i, widthF P n free h i))])
+      (by omega) (by rw [List.map_append, hacc, take_succ_getD (by omega)]; rfl)
+    rw [this]
+    simp [List.range'_succ, entryF, List.append_assoc]
+
+/-- **`NonContiguousCategoricalEncoderModel::from_symbols_and_floating_point_probabilities_fast`**
+    with pairwise distinct symbols: returns the hash table that holds exactly the shared symbol
+    table, hence the encoder of the labelled specification model -/
+theorem ncenc_fast {Sym : Type} [DecidableEq Sym] [Inhabited Sym] (ok : FastOk B P n)
+    (hf : free = 2 ^ P - n) (tb : TBF1Fast h n) {syms : List Sym} (hlen : syms.length = n)
+    (hnd : syms.Nodup) :
+    ∃ m, Cat.NcEnc.fromSymbolsAndCdf B P syms (innerList P n free h) = .ok (some m) ∧
+      m.tbl = Cat.specTable (fun i => syms.getD i default) (extList P n free h) ∧
+      ∀ s, m.enc s = (Cat.labelledModel syms (extList P n free h)).enc s := by
+  have hn2 := ok.hn2
+  obtain ⟨hc, _⟩ := innerList_cons (B := B) (free := free) (h := h) ok
+  have hloop := ncenc_fromCdfLoop ok hf tb.mono hlen hnd (n - 1) 0 [] (by omega) (by simp)
+  simp only [List.drop_zero, List.nil_append, Nat.zero_add] at hloop
+  have htail : (innerList P n free h).tail = (innerList P n free h).drop 1 := by
+    rw [List.drop_one]
+  have hlast := syms_drop (syms := syms) (i := n - 1) (by omega)
+  have e : n - 1 + 1 = n := by omega
+  rw [e, List.drop_of_length_le (l := syms) (i := n) (by omega)] at hlast
+  have hw := wsub_last ok hf tb.mono (s := n - 1) (by omega)
+  have hp := width_pos ok hf tb.mono (s := n - 1) (by omega)
+  have hget : Cat.NcEnc.get ((List.range' 0 (n - 1)).map (entryF P n free h syms))
+      (syms.getD (n - 1) default) = none := by
+    rw [Cat.NcEnc.get_none_iff]
+    have : ((List.range' 0 (n - 1)).map (entryF P n free h syms)).map (·.1) = syms.take (n - 1) := by
+      apply List.ext_getElem?
+      intro j
+      by_cases hj : j < n - 1
+      · simp [entryF, hj, List.getD_eq_getElem?_getD,
+          List.getElem?_eq_getElem (show j < syms.length by omega)]
+      · simp [hj, List.getElem?_take]
+    rw [this]
+    exact not_mem_take_of_nodup hnd (by omega)
+  have hall : (List.range' 0 (n - 1)).map (entryF P n free h syms)
+        ++ [(syms.getD (n - 1) default, (cumF P n free h (n - 1), widthF P n free h (n - 1)))]
+      = Cat.specTable (fun i => syms.getD i default) (extList P n free h) := by
+    rw [specTable_eq_entries]
+    obtain ⟨m', rfl⟩ : ∃ m', n = m' + 1 := ⟨n - 1, by omega⟩
+    simp only [Nat.add_sub_cancel]
+    rw [List.range'_concat]
+    simp [entryF]
+  refine ⟨{ tbl := Cat.specTable (fun i => syms.getD i default) (extList P n free h) }, ?_, rfl, ?_⟩
+  · rw [hc]
+    unfold Cat.NcEnc.fromSymbolsAndCdf
+    simp only
+    rw [htail, hloop, hlast]
+    simp only
+    unfold Cat.NcEnc.insertNew
+    rw [hget]
+    simp only
+    rw [hw, if_neg (by omega), hall]
+    simp
+  · intro s
+    exact Cat.NcEnc.enc_of_specTable (by rw [extList_length]; omega) rfl s
 
 end CV.Quant
